@@ -190,11 +190,24 @@ pub fn worker(w: &mut Worker) {
     // the escape table: a backslash followed by each character of the alphabet, and `\$` followed by
     // each character; only \\ \" \n \r \t and \${ are documented, everything else must be rejected
     // with ControlWithoutValidValue at that line
-    let follow = ["a", "n", "r", "t", "\\", "\"", "$", "{", "}", " ", "#", "=", ":", "%", "q", "0", "é", ""];
+    let mut follow: Vec<String> = ["a", "n", "r", "t", "\\", "\"", "$", "{", "}", " ", "#", "=", ":", "%", "q", "0", "é", ""].iter().map(|x| x.to_string()).collect();
+    // ... and for every character that completes a documented escape, the characters of eight other planes
+    // that share its low byte (what a narrowing cast or a byte-indexed table would take for it), the
+    // upper-case letters, and characters that do not show
+    for base in ['n', 'r', 't', '\\', '"', '{', '$'] {
+        for plane in [0x100u32, 0x400, 0x2000, 0x2100, 0x3000, 0xff00, 0x1f600, 0xe0000] {
+            if let Some(c) = char::from_u32(plane + base as u32) {
+                follow.push(c.to_string());
+            }
+        }
+    }
+    for extra in ["N", "R", "T", "\u{feff}", "\u{200b}", "\u{a0}", "\u{1}", "\u{301}"] {
+        follow.push(extra.to_string());
+    }
     for prefix in ["cmd ", "cmd \"", "x = cmd a", ":l cmd b ", "!print ", "!print a \""].iter() {
         let in_quotes = prefix.ends_with('"');
         for dollar in [false, true] {
-            for c in follow {
+            for c in follow.iter().map(|x| x.as_str()) {
                 // what follows the escape keeps the line otherwise well-formed; the escape in the
                 // middle of an argument, at the very end of the line, in front of trailing white
                 // space and of a comment, and right in front of the closing quote
